@@ -265,6 +265,24 @@ func runC19(t *rapid.T) {
 		return
 	}
 
+	// S2b: a result set without rows (same columns): no error, no rows
+	{
+		sim.Tables["empty"] = &simdb.Table{Cols: append([]string{}, src.Names...)}
+		conf0 := append([]qsql.ConfigFunc{}, readConf...)
+		conf0[0] = qsql.Query("SELECT * FROM empty")
+		var got0 qframe.QFrame
+		var pan interface{}
+		func() {
+			defer func() { pan = recover() }()
+			got0 = qframe.ReadSQL(tx, conf0...)
+		}()
+		if pan != nil || got0.Err != nil || got0.Len() != 0 {
+			core.Violation(t, "C19:readsql:empty-result-set", fmt.Sprintf("ReadSQL of a result set without rows: panic %v, Err %v, %d rows", pan, got0.Err, got0.Len()), tr)
+			return
+		}
+		core.Probe("readsql-checked-empty-result-set")
+	}
+
 	// S3: a result set with NULLs in float columns (NaN cells stored as NULL)
 	nullTable := &simdb.Table{Cols: append([]string{}, src.Names...)}
 	hasNull := false
